@@ -845,9 +845,10 @@ func (m *StateMachine) handleViewUpdate(
 		panic(fmt.Errorf("TODO: handle view update for step %q", rlc.S))
 	}
 
-	if vrv.Height == rlc.VRV.Height && vrv.Round == rlc.VRV.Round {
+	if rlc.VRV != nil && vrv.Height == rlc.VRV.Height && vrv.Round == rlc.VRV.Round {
 		// If the view update caused a nil commit,
-		// the incoming vrv's height and round will differ from the set VRV.
+		// the incoming vrv's height and round will differ from the set VRV
+		// (or there is no live view at all, if the new round is a catch-up).
 		// So we have to check this in order to avoid "moving backwards".
 
 		// Assuming it's okay to take ownership of vrv as opposed to copying in to our value.
